@@ -5,6 +5,9 @@ import os
 from vf import core
 
 PROBES = ['EpochConvention', 'EpochGap', 'HWFallback', 'ExpandLagging']
+# defects repaired in /repo: the probe must be unreachable in the model (thorough tier) and the
+# stimulus that used to fail is replayed on the real code in every run (spec/scenarios)
+FIXED_PROBES = ['StaleIsrOffset']
 
 
 def to_stimulus(beh, bid):
@@ -85,6 +88,16 @@ def run(rep, tier, seed, replay, prop, names, relevant, rule):
                          timeout=7200, coverage=False)
     rep.add_design('MC_Replication', res)
     behaviours = probe_stimuli(rep)
+    import json
+    with open(os.path.join(core.SPEC, 'scenarios', 'replication_regressions.json')) as fh:
+        behaviours += json.load(fh)['behaviours']
+    if tier == 'thorough':
+        for tag in FIXED_PROBES:
+            names, beh = core.tlc_counterexample('MC_Replication.tla', 'Probe_Replication_%s.cfg' % tag, timeout=3600)
+            rep.cov.setdefault('defect_probes', []).append({'tag': tag, 'reachable': bool(names), 'fixed': True})
+            if beh:
+                # the repaired defect is reachable again in the model: replay on the real code decides
+                behaviours.append(to_stimulus(beh, 9200))
     num = 60 if tier == 'quick' else 1500
     sims = core.tlc_simulate('MC_Replication.tla', 'Sim_Replication.cfg', num, 16, seed)
     behaviours += [to_stimulus(b, i + 1) for i, b in enumerate(sims) if len(b) > 1]
